@@ -241,7 +241,8 @@ impl Color3f<Rgb> {
         let s = if l == 0.0 || l == 1.0 {
             0.0
         } else {
-            d / (1.0 - f32::abs(2.0 * l - 1.0))
+            // May exceed 1.0 by a rounding error
+            (d / (1.0 - f32::abs(2.0 * l - 1.0))).min(1.0)
         };
 
         for ch in [h, s, l] {
